@@ -79,6 +79,8 @@ def execute(scenario):
             if st["done_before"]:
                 break
             k = st["k"]
+            if st.get("exc") == "EndOfEpisodeError":
+                break       # the account was ruined (C09's business): nothing further to judge here
             if st.get("exc") is not None:
                 violate("unexpected_exception", "step {} raised {}: {} [{}]".format(k, st["exc"], st.get("msg"), st.get("site")), op=k,
                         exc=st["exc"], where="step", site=st.get("site"), fractional=fractional)
